@@ -82,7 +82,7 @@ func C03(c *Ctx) error {
 	}
 	jobs := make([]*job, n)
 	for i := range jobs {
-		o := gen.RouteOpts{SafeOnly: i%3 == 0}
+		o := gen.RouteOpts{SafeOnly: i%3 == 0, TrailingSlash: i%2 == 1, QueryNameClash: i%5 == 2}
 		jobs[i] = &job{req: gen.GenRouteFile(r.Fork(fmt.Sprint("c03-", i)), i, o)}
 	}
 	parallel(n, func(i int) { jobs[i].outs, jobs[i].err = runAll(jobs[i].req) })
